@@ -91,6 +91,13 @@ CHECKS.update({
         technique="TLA+ specification of the allowed placement set (TLC) + TLC trace validation of real allocator draws", ref="5/C16"),
 })
 
+CHECKS.update({
+    "C10": dict(
+        text="Cluster.tla states routing as a fixed owner function with entry nodes that host or do not host the owner and six API paths (TLC: OwnerOnly / Stable hold; a path computing another owner gives a counterexample). On the real code every partition lives on its own scripted node, so the node (and for batch paths the partition id in the request) that receives a write identifies the owner the real Dataset computed; for partition counts 1,2,3,7,16, ids spanning the extremes of both 64-bit halves plus seeded random ids, three entry Datasets (outside the owners, hosting partition 0, a re-created one) and all six paths, ClusterTrace requires a defined owner in range for every call and the same owner for the same id everywhere.",
+        note="The quantifier 'all 128-bit ids, partition counts up to 1024' is arithmetic on one pure function beyond TLC's integers and is only sampled (DESIGN.md section 6). Owners are scripted gRPC servers.",
+        technique="TLA+ model checking (TLC) + TLC trace validation of routed writes observed at scripted owners", ref="5/C10"),
+})
+
 NOT_APPLICABLE = {
     "C15": "Numeric agreement and memory safety of hand-written AVX/SSE kernels: no state machine to specify, TLC has neither IEEE-754 floats nor a memory model; a differential/sanitizer technique would be needed (DESIGN.md section 6).",
 }
